@@ -52,6 +52,10 @@ def simple_lets(body):
     return lets
 
 
+class _Return(Exception):
+    pass
+
+
 def record_table(c, body):
     """(prepared, succeeded, positive) -> None | 0 | 1 : which list `record` pushes the rule to."""
     lets = simple_lets(body["value"])
@@ -86,9 +90,14 @@ def record_table(c, body):
                     run(e["else"])
             elif k == "mcall" and e["name"] == "push":
                 pushes.append(list_index(c, e["recv"], env, lets))
+            elif k == "ret":
+                raise _Return()
             elif k in ("call", "mcall"):
                 pass
-        run(body["value"])
+        try:
+            run(body["value"])
+        except _Return:
+            pass
         if len(pushes) > 1:
             raise Undecided("more than one push on one path")
         out[(prepared, succeeded, positive)] = pushes[0] if pushes else None
@@ -237,26 +246,53 @@ def run(ctx):
     if b is None:
         rt.violate("during", "Tracker::during missing")
     else:
+        # ordered effects on `self.positive`: save, set to the const parameter, run the closure, restore the saved value
+        def is_self_positive(e):
+            while e["k"] in ("addr_of", "use") or (e["k"] == "unary" and e.get("op") == "*"):
+                e = e["e"]
+            return e["k"] == "field" and e["name"] == "positive" and e["base"]["k"] == "local" and e["base"].get("name") == "self"
+
+        def is_const_param(e):
+            while e["k"] in ("use", "cast") or (e["k"] == "block" and not e.get("stmts") and "tail" in e):
+                e = e["tail"] if e["k"] == "block" else e["e"]
+            return e["k"] == "def" and e.get("kind") == "ConstParam"
         seq = []
-        for n in walk(b["value"]):
-            if n["k"] == "block":
-                for s in n.get("stmts", []):
-                    if s["k"] == "let" and "init" in s:
-                        inv._LETS = {}
-                        seq.append("let %s = %s" % (s["pat"].get("name", "_"), inv.short_descr(c, s["init"])))
-                    elif s["k"] == "expr":
-                        inv._LETS = {}
-                        seq.append(inv.short_descr(c, s["e"]))
-        okd = False
-        if len(seq) == 4 and seq[0].startswith("let ") and seq[0].endswith(" = self.positive"):
-            saved = seq[0][4:].split(" = ")[0]
-            rhs = seq[1].split(" = ")[-1]
-            okd = (seq[1].startswith("self.positive = ") and rhs.isupper() and "call_once" in seq[2] and "self" in seq[2]
-                   and seq[3] == "self.positive = " + saved)
-        if okd:
+        saved = None
+        top = b["value"]
+        items = [(s_, s_.get("init") if s_["k"] == "let" else s_.get("e")) for s_ in top.get("stmts", [])]
+        if "tail" in top:
+            items.append((None, top["tail"]))
+        for st_, ex in items:
+            if ex is None:
+                continue
+            core = ex
+            while core["k"] in ("use",) or (core["k"] == "block" and not core.get("stmts") and "tail" in core):
+                core = core["tail"] if core["k"] == "block" else core["e"]
+            cal = core.get("callee") if core["k"] in ("call", "mcall") else None
+            if st_ is not None and st_["k"] == "let" and is_self_positive(core):
+                saved = st_["pat"].get("var")
+                seq.append("save")
+            elif cal and strip_generics(cal["path"]) in ("core::mem::replace", "std::mem::replace") and is_self_positive(core["args"][0]):
+                if st_ is not None and st_["k"] == "let":
+                    saved = st_["pat"].get("var")
+                    seq.append("save")
+                seq.append("set:const" if is_const_param(core["args"][1]) else "set:other")
+            elif core["k"] == "assign" and is_self_positive(core["l"]):
+                r_ = core["r"]
+                if r_["k"] == "local" and r_.get("var") == saved:
+                    seq.append("restore")
+                elif is_const_param(r_):
+                    seq.append("set:const")
+                else:
+                    seq.append("set:other")
+            elif any(m.get("callee") and strip_generics(m["callee"]["path"]).endswith("FnOnce::call_once") for m in walk(core)):
+                seq.append("call")
+            elif any(m["k"] in ("assign", "assign_op") and is_self_positive(m["l"]) for m in walk(core)):
+                seq.append("write:nested")
+        if seq == ["save", "set:const", "call", "restore"]:
             rt.inst("during", c.loc(b["value"].get("sp")), "ok", {"sequence": seq})
         else:
-            rt.violate("during", "polarity is not saved / set / restored around the closure: %s" % seq, c.loc(b["value"].get("sp")))
+            rt.violate("during", "polarity is not saved / set to the const parameter / restored around the closure: %s" % seq, c.loc(b["value"].get("sp")))
     writers = []
     for fid in c.bodies:
         if fid.startswith("pest_typed::tracker::") and "::tests::" not in fid:
